@@ -1055,6 +1055,7 @@ pub fn generate(ctx: &mut Ctx) {
     {
         let mut stamps: Vec<DateTime> = gen::dst_edge_datetimes();
         stamps.extend(gen::lmt_datetimes());
+        stamps.extend(gen::leap_datetimes());
         for zone in ["America/Indiana/Knox", "America/Kentucky/Monticello", "America/North_Dakota/Center", "America/Argentina/Ushuaia", "America/Argentina/Buenos_Aires"] {
             if let Ok(tz) = zone.parse::<chrono_tz::Tz>() {
                 use chrono::TimeZone;
